@@ -6,5 +6,6 @@ CONSTANTS
   MaxDup = 1
   MaxLen = 5
   MaxTimeouts = 1
+  MaxForged = 2
 INVARIANTS TypeOK FinalisedAtMostOncePerBlock OneBlockPerProposalKey OnlySharesForTheBlock LateSharesCount
 CHECK_DEADLOCK FALSE
